@@ -179,4 +179,111 @@ def forBreakM {σ ε : Type} (l : List β) (init : σ) (body : σ → β → Exc
 /-- `np.abs` of a scalar -/
 def absS [Neg α] [NatCast α] [LT α] [DecidableRel (α := α) (· < ·)] (x : α) : α := if x < ((0 : Nat) : α) then -x else x
 
+/-! ### vocabulary of the translated element-wise utility tables (`GenU`) -/
+
+/-- `bool.astype(float)` -/
+def b2f [NatCast α] (b : Bool) : α := if b then ((1 : Nat) : α) else ((0 : Nat) : α)
+def b2f1 [NatCast α] (v : List Bool) : List α := v.map b2f
+def b2f2 [NatCast α] (m : List (List Bool)) : List (List α) := m.map b2f1
+
+/-- `np.equal.outer(a, b)[i][j] = (a[i] == b[j])`, `np.not_equal.outer` -/
+def outerEq (a b : List Int) : List (List Bool) := a.map (fun x => b.map (fun y => x == y))
+def outerNe (a b : List Int) : List (List Bool) := a.map (fun x => b.map (fun y => x != y))
+
+/-- element-wise comparisons of label vectors (`a == b`, `np.equal`, `np.not_equal`), vector against vector / scalar -/
+def eqVV (a b : List Int) : List Bool := List.zipWith (fun x y => x == y) a b
+def neVV (a b : List Int) : List Bool := List.zipWith (fun x y => x != y) a b
+def eqVS (a : List Int) (c : Int) : List Bool := a.map (fun x => x == c)
+def neVS (a : List Int) (c : Int) : List Bool := a.map (fun x => x != c)
+
+/-- `*` of Boolean arrays -/
+def and1 (a b : List Bool) : List Bool := List.zipWith (fun x y => x && y) a b
+def and2 (a b : List (List Bool)) : List (List Bool) := List.zipWith and1 a b
+
+/-- `np.full_like(v, x)` -/
+def fullLike {γ : Type} (v : List γ) (x : Int) : List Int := v.map (fun _ => x)
+
+/-- `boolvec.sum(dtype=float)` -/
+def countTrueF [NatCast α] (v : List Bool) : α := (((v.filter id).length : Nat) : α)
+
+/-- `np.mean` of a vector: left-to-right sum divided by the length -/
+def mean1 [Add α] [Div α] [NatCast α] (v : List α) : α := sumGen v / ((v.length : Nat) : α)
+
+def zerosLikeF {γ : Type} [NatCast α] (v : List γ) : List α := v.map (fun _ => ((0 : Nat) : α))
+def zeros2 [NatCast α] (r c : Int) : List (List α) := List.replicate r.toNat (List.replicate c.toNat ((0 : Nat) : α))
+
+/-- element-wise map / zip of matrices -/
+def mapM2 (f : α → α) (m : List (List α)) : List (List α) := m.map (fun row => row.map f)
+def zipM2 (f : α → α → α) (a b : List (List α)) : List (List α) := List.zipWith (fun r s => List.zipWith f r s) a b
+
+/-- `min_score > score` for a running minimum that starts at `np.inf` (`none`) -/
+def gtInf [LT α] [DecidableRel (α := α) (· < ·)] (m : Option α) (x : α) : Bool :=
+  match m with
+  | none => true
+  | some v => decide (x < v)
+
+/-- `counts` of `np.unique(y, return_counts=True)` for the distinct values `cls` -/
+def countsOf (cls y : List Int) : List Int := cls.map (fun c => (((y.filter (fun x => x == c)).length : Nat) : Int))
+
+/-- `np.argmin` of an integer vector: first index of the minimum -/
+def argminI : List Int → Int
+  | [] => 0
+  | x :: xs =>
+      let rec go (best : Int) (bi : Nat) (i : Nat) : List Int → Nat
+        | [] => bi
+        | y :: ys => if y < best then go y i (i + 1) ys else go best bi (i + 1) ys
+      ((go x 0 1 xs : Nat) : Int)
+
+/-! ### vocabulary of the translated `Provenance.query` (`GenQ`) -/
+
+/-- 4-D integer array `(r, d, c, 2)` and 3-D array `(r, d, c)` with explicit shape (a container with 0 rows or width 1 still knows its axes) -/
+structure A4 (β : Type) where
+  r : Nat
+  d : Nat
+  c : Nat
+  v : List (List (List (List β)))
+structure A3 (β : Type) where
+  r : Nat
+  d : Nat
+  c : Nat
+  v : List (List (List β))
+
+/-- `a[:, :, :, k]` -/
+def sel4 (a : A4 Int) (k : Nat) : A3 Int := ⟨a.r, a.d, a.c, a.v.map (fun row => row.map (fun cj => cj.map (fun lit => lit.getD k 0)))⟩
+
+/-- `values[i]` for one (possibly negative) index; out of range raises IndexError -/
+def take1 (vals : List Int) (i : Int) : Except String Int :=
+  match pyIdx vals.length i with
+  | some k => pure (vals.getD k 0)
+  | none => throw "IndexError"
+
+/-- fancy indexing `values[idx]` with a 3-D index array -/
+def take3 (vals : List Int) (a : A3 Int) : Except String (A3 Int) := do
+  let v ← a.v.mapM (fun row => row.mapM (fun cj => cj.mapM (take1 vals)))
+  pure ⟨a.r, a.d, a.c, v⟩
+
+def eq3 (a b : A3 Int) : A3 Bool :=
+  ⟨a.r, a.d, a.c, List.zipWith (fun r s => List.zipWith (fun x y => List.zipWith (fun p q => p == q) x y) r s) a.v b.v⟩
+def eqS3 (a : A3 Int) (s : Int) : A3 Bool := ⟨a.r, a.d, a.c, a.v.map (fun row => row.map (fun cj => cj.map (fun x => x == s)))⟩
+
+def shape3 {γ : Type} (a : A3 γ) (k : Nat) : Int := if k = 0 then (a.r : Int) else if k = 1 then (a.d : Int) else (a.c : Int)
+def shape2 {γ : Type} (a : A2 γ) (k : Nat) : Int := if k = 0 then (a.r : Int) else (a.c : Int)
+
+/-- `x.squeeze(axis=2)` (axis of length 1), `np.all(x, axis=2)`, `np.any(x, axis=2)` -/
+def squeeze3_2 (a : A3 Bool) : A2 Bool := ⟨a.r, a.d, a.v.map (fun row => row.map (fun cj => cj.getD 0 false))⟩
+def allAxis2 (a : A3 Bool) : A2 Bool := ⟨a.r, a.d, a.v.map (fun row => row.map (fun cj => cj.all id))⟩
+def anyAxis2 (a : A3 Bool) : A2 Bool := ⟨a.r, a.d, a.v.map (fun row => row.map (fun cj => cj.any id))⟩
+
+/-- `&`, `~` on 2-D Boolean arrays -/
+def andA2 (a b : A2 Bool) : A2 Bool := ⟨a.r, a.c, List.zipWith (fun r s => List.zipWith (fun x y => x && y) r s) a.d b.d⟩
+def not2 (a : A2 Bool) : A2 Bool := ⟨a.r, a.c, a.d.map (fun row => row.map (fun x => !x))⟩
+
+/-- `x.squeeze(axis=1)`, `np.any(x, axis=1)`, `np.all(x, axis=1)` -/
+def squeeze2_1 (a : A2 Bool) : List Bool := a.d.map (fun row => row.getD 0 false)
+def anyAxis1 (a : A2 Bool) : List Bool := a.d.map (fun row => row.any id)
+def allAxis1 (a : A2 Bool) : List Bool := a.d.map (fun row => row.all id)
+
+/-- `np.argwhere(mask)` of a 1-D mask (as a flat list of positions) -/
+def argwhere1 (m : List Bool) : List Int := ((List.range m.length).filter (fun i => m.getD i false)).map (fun (i : Nat) => (i : Int))
+
 end Np
